@@ -129,4 +129,25 @@ theorem C07_wiring2 :
     Sso.Generated.skel_auth_getOAuthCallback =
       ["call:getRemoteAddr", "call:ParseForm", "if{", "call:Error", "return", "}", "call:Get", "if{", "return", "}", "call:Get", "if{", "return", "}", "call:redeemCode", "if{", "return", "}", "call:Get", "call:DecodeString", "if{", "return", "}", "call:string", "call:SplitN", "call:len", "if{", "return", "}", "call:GetCSRF", "if{", "return", "}", "call:ClearCSRF", "if{", "return", "}", "call:validRedirectURI", "if{", "return", "}", "call:RunValidators", "call:len", "call:len", "if{", "call:len", "call:make", "range{", "call:Error", "call:append", "}", "call:Join", "call:Sprintf", "return", "}", "call:SaveSession", "if{", "return", "}", "return"] := by decide
 
+/-- Tie (T1): the decoder tags of sso-auth's configuration structs (`internal/auth/configuration.go`) — the names under which the environment and the files reach each setting this
+property depends on (TTLs, cookie flags, client credentials, root domains, allow rules …). A tag that changes re-routes or drops a
+setting without any code noticing. -/
+theorem C07_tags_authConfigTags : Sso.Generated.authConfigTags =
+    ["Configuration.ProviderConfigs mapstructure:\"provider\"", "Configuration.ClientConfigs mapstructure:\"client\"", "Configuration.GroupCacheConfig mapstructure:\"groupcache\"", "Configuration.AuthorizeConfig mapstructure:\"authorize\"", "Configuration.SessionConfig mapstructure:\"session\"", "Configuration.ServerConfig mapstructure:\"server\"", "Configuration.MetricsConfig mapstructure:\"metrics\"", "Configuration.LoggingConfig mapstructure:\"logging\"", "ProviderConfig.ProviderType mapstructure:\"type\"", "ProviderConfig.ProviderSlug mapstructure:\"slug\"", "ProviderConfig.ClientConfig mapstructure:\"client\"", "ProviderConfig.Scope mapstructure:\"scope\"", "ProviderConfig.GoogleProviderConfig mapstructure:\"google\"", "ProviderConfig.OktaProviderConfig mapstructure:\"okta\"", "ProviderConfig.AmazonCognitoProviderConfig mapstructure:\"cognito\"", "ProviderConfig.GroupCacheConfig mapstructure:\"groupcache\"", "GoogleProviderConfig.Credentials mapstructure:\"credentials\"", "GoogleProviderConfig.Impersonate mapstructure:\"impersonate\"", "GoogleProviderConfig.ApprovalPrompt mapstructure:\"prompt\"", "GoogleProviderConfig.HostedDomain mapstructure:\"domain\"", "OktaProviderConfig.ServerID mapstructure:\"server\"", "OktaProviderConfig.OrgURL mapstructure:\"url\"", "AmazonCognitoProviderConfig.OrgURL mapstructure:\"url\"", "AmazonCognitoProviderConfig.UserPoolID mapstructure:\"id\"", "AmazonCognitoProviderConfig.Region mapstructure:\"region\"", "AmazonCognitoProviderConfig.Credentials mapstructure:\"credentials\"", "CognitoCredentials.ID mapstructure:\"id\"", "CognitoCredentials.Secret mapstructure:\"secret\"", "GroupCacheConfig.CacheIntervalConfig mapstructure:\"interval\"", "CacheIntervalConfig.Provider mapstructure:\"provider\"", "CacheIntervalConfig.Refresh mapstructure:\"refresh\"", "SessionConfig.CookieConfig mapstructure:\"cookie\"", "SessionConfig.SessionLifetimeTTL mapstructure:\"lifetime\"", "SessionConfig.Key mapstructure:\"key\"", "CookieConfig.Name mapstructure:\"name\"", "CookieConfig.Secret mapstructure:\"secret\"", "CookieConfig.Domain mapstructure:\"domain\"", "CookieConfig.Expire mapstructure:\"expire\"", "CookieConfig.Secure mapstructure:\"secure\"", "CookieConfig.HTTPOnly mapstructure:\"httponly\"", "ServerConfig.Host mapstructure:\"host\"", "ServerConfig.Port mapstructure:\"port\"", "ServerConfig.Scheme mapstructure:\"scheme\"", "ServerConfig.TimeoutConfig mapstructure:\"timeout\"", "TimeoutConfig.Write mapstructure:\"write\"", "TimeoutConfig.Read mapstructure:\"read\"", "TimeoutConfig.Request mapstructure:\"request\"", "TimeoutConfig.Shutdown mapstructure:\"shutdown\"", "ClientConfig.ID mapstructure:\"id\"", "ClientConfig.Secret mapstructure:\"secret\"", "AuthorizeConfig.EmailConfig mapstructure:\"email\"", "AuthorizeConfig.ProxyConfig mapstructure:\"proxy\"", "EmailConfig.Domains mapstructure:\"domains\"", "EmailConfig.Addresses mapstructure:\"addresses\"", "ProxyConfig.Domains mapstructure:\"domains\"", "MetricsConfig.StatsdConfig mapstructure:\"statsd\"", "LoggingConfig.Enable mapstructure:\"enable\"", "LoggingConfig.Level mapstructure:\"level\"", "StatsdConfig.Port mapstructure:\"port\"", "StatsdConfig.Host mapstructure:\"host\""] := by decide
+
+/-- Tie (T1): `cmd/sso-auth/main.go`: load the configuration from the environment, validate it, `NewAuthenticatorMux`, wrap in the timeout and logging handlers, serve — the sequence the harness reproduces when it builds the service in-process (configuration validated before
+anything is served; the handler wrapping). -/
+theorem C07_skeleton_cmd_auth_main : Sso.Generated.skel_cmd_auth_main =
+    ["call:LoadConfig", "if{", "call:Exit", "}", "call:Validate", "if{", "call:Exit", "}", "call:NewStatsdClient", "if{", "call:Exit", "}", "call:NewAuthenticatorMux", "if{", "call:Exit", "}", "defer:Stop", "call:TimeoutHandler", "call:Sprintf", "call:NewLoggingHandler", "call:Run", "if{", "}"] := by decide
+
+/-- Tie (T1), third wave: the constructors and option functions that hand configured values to the components this property
+speaks about (auth_NewAuthenticator, auth_GetRedirectURI, auth_getAuthCodeRedirectURL). -/
+theorem C07_wiring3 :
+    Sso.Generated.skel_auth_NewAuthenticator =
+      ["call:NewHTMLTemplate", "range{", "call:HasPrefix", "if{", "call:Sprintf", "}", "call:append", "}", "call:newMux", "store:p.ServeMux", "range{", "call:optFunc", "if{", "return", "}", "}", "return"] ∧
+    Sso.Generated.skel_auth_GetRedirectURI =
+      ["call:String", "return"] ∧
+    Sso.Generated.skel_auth_getAuthCodeRedirectURL =
+      ["call:String", "call:Parse", "if{", "return", "}", "call:ParseQuery", "if{", "return", "}", "call:Set", "call:Set", "call:Encode", "store:u.RawQuery", "store:u.Scheme", "call:String", "return"] := by decide
+
 end Sso.AuthN
